@@ -3,6 +3,7 @@ package rt
 import (
 	"encoding/json"
 	"fmt"
+	"hash/fnv"
 	"math/rand"
 	"os"
 	"path/filepath"
@@ -25,10 +26,10 @@ var classRunes = map[string][]rune{
 	"title":       {'ǅ', 'ǈ', 'ǋ', 'ǲ'},
 	"nocase":      {'日', 'ʰ', 'ª', '本'},
 	"nd":          {'7', '١', '５', '0'},
-	"num_other":   {'²', '½', '¾'},
+	"num_other":   {'²', '½', '¾', 'Ⅷ', 'Ⅻ'}, // the last two have a lower-case form (ToLower differs), nothing else sets them apart
 	"num_cased":   {'ⅰ', 'ⅱ', 'ⅲ'},
 	"us":          {'_'},
-	"delim":       {'-', '.', ' ', '/', '+', '@'},
+	"delim":       {'-', '.', ' ', '/', '+', '@', 'Ⓐ'}, // the last one has a lower-case form
 	"ws":          {' ', '\t', '\u00a0', '\u2003', '\u2028'},
 	"delim_cased": {'ⓐ', 'ⓑ'},
 	"delim_upper": {'ͅ'},
@@ -106,17 +107,19 @@ func RunNames(fam *Family, tier string) int {
 			names = append(names, &n)
 		}
 	}
-	// one representative rune per class for this run
-	rep := map[string]rune{}
-	for c, rs := range classRunes {
-		rep[c] = rs[rng.Intn(len(rs))]
-	}
+	// a representative rune per class: chosen per NAME from the class's list (a hash of the name's class sequence and
+	// the seed), so that every listed rune of every class occurs in every run; within one name a class keeps one rune
+	_ = rng
 	seenText := map[string]bool{}
 	var uniq []*nm
 	for _, n := range names {
+		h := fnv.New32a()
+		fmt.Fprintf(h, "%d/%s", seed, strings.Join(n.Name, ","))
+		pick := int(h.Sum32() >> 4)
 		var sb strings.Builder
 		for _, c := range n.Name {
-			sb.WriteRune(rep[c])
+			rs := classRunes[c]
+			sb.WriteRune(rs[pick%len(rs)])
 		}
 		n.text = sb.String()
 		if !seenText[n.text] {
